@@ -4,7 +4,7 @@ from ..rules import matrix, wide128
 
 def run(ck):
     P = facts.load()
-    ck.not_decided = ('not decided: correct rounding of the 128-by-48 division beyond the negation identity of C11-R9, truncation instead of rounding in fixed_inverse, per-partial rounding of transform_multiply, the +-1 bound for |w| >= 65536, invert accuracy, transform_bounds (F6: pixman_fixed_ceil overflow, value-level), NaN inputs of the float conversions.')
+    ck.not_decided = ('not decided: correct rounding of the 128-by-48 division beyond the negation identity of C11-R9, truncation instead of rounding in fixed_inverse, per-partial rounding of transform_multiply, the +-1 bound for |w| >= 65536, invert accuracy, NaN inputs of the float conversions.')
     matrix.r1_no_abort(ck, P)
     matrix.r2_overflow_reported(ck, P)
     matrix.r3_status_used(ck, P)
@@ -19,3 +19,4 @@ def run(ck):
     matrix.r12_inverse_guarded(ck, P)
     matrix.r13_narrowed_results_range_tested(ck, P)
     matrix.r14_negation_excludes_minimum(ck, P)
+    matrix.r15_ceil_guarded(ck, P)
